@@ -111,7 +111,15 @@ func (fdb *fsDb) Get(ctx context.Context, key []byte) ([]byte, error) {
 		logg.TraceCtxf(ctx, "trying fs get", "i", i, "key", key, "path", fp)
 		f, err = os.Open(fp)
 		if err == nil {
-			break
+			// a candidate name may resolve to a directory (the legacy name
+			// of the empty key is the data directory itself): no record there.
+			fi, serr := f.Stat()
+			if serr == nil && !fi.IsDir() {
+				break
+			}
+			f.Close()
+			f = nil
+			continue
 		}
 		if !errors.Is(err, fs.ErrNotExist) {
 			return nil, err
